@@ -413,6 +413,30 @@ def _selected(body, case: str):
                 return node
         return Sub().visit(copy.deepcopy(expr))
 
+    def lookup(value):
+        """name selected by `TABLE.get(<setting>, default)` / `TABLE[<setting>]` for a dict
+        display of string keys and names"""
+        table = key = default = None
+        if isinstance(value, ast.Call) and isinstance(value.func, ast.Attribute) and \
+                value.func.attr == 'get' and 1 <= len(value.args) <= 2 and \
+                not value.keywords:
+            table, key = expand(value.func.value), value.args[0]
+            default = value.args[1] if len(value.args) == 2 else ast.Constant(value=None)
+        elif isinstance(value, ast.Subscript):
+            table, key = expand(value.value), value.slice
+        if not (isinstance(table, ast.Dict) and all(
+                isinstance(k, ast.Constant) and isinstance(k.value, str)
+                and isinstance(v, ast.Name) for k, v in zip(table.keys, table.values))):
+            return None
+        if ast.unparse(expand(key)) != setting():
+            return '?'
+        for k, v in zip(table.keys, table.values):
+            if case != 'other' and k.value == case:
+                return v.id
+        if default is None:
+            return 'raise'  # KeyError
+        return default.id if isinstance(default, ast.Name) else '?'
+
     def setting():
         return ast.unparse(expand(ast.parse(_SETTING, mode='eval').body))
 
@@ -425,6 +449,13 @@ def _selected(body, case: str):
             if any(v is None for v in values):
                 return None
             return all(values) if isinstance(test.op, ast.And) else any(values)
+        if isinstance(test, ast.Compare) and len(test.ops) == 1 and \
+                isinstance(test.left, ast.Name) and test.left.id == 'WaitQueue' and \
+                isinstance(test.ops[0], (ast.Is, ast.IsNot, ast.Eq, ast.NotEq)) and \
+                isinstance(test.comparators[0], ast.Name) and bound[0] is not None:
+            # what was just selected, compared with a marker
+            same = bound[0] == test.comparators[0].id
+            return same if isinstance(test.ops[0], (ast.Is, ast.Eq)) else not same
         if isinstance(test, ast.Compare) and len(test.ops) == 1 and \
                 ast.unparse(expand(test.left)) == setting():
             op, right = test.ops[0], test.comparators[0]
@@ -463,7 +494,12 @@ def _selected(body, case: str):
                     if isinstance(stmt.value, ast.Name):
                         bound[0] = stmt.value.id
                     else:
-                        return '?'
+                        looked_up = lookup(stmt.value)
+                        if looked_up in (None, '?'):
+                            return '?'
+                        if looked_up == 'raise':
+                            return 'raise'
+                        bound[0] = looked_up
                 elif len(targets) == 1 and isinstance(targets[0], ast.Name) and \
                         stmt.value is not None:
                     # a module level name for (part of) the setting
